@@ -97,10 +97,28 @@ def mk_p_versioned(sgn_of):
     return p
 
 
+REL_NAMES = ['pkg', 'pkg:any', 'pkg:amd64', 'pkg:native', 'pkg3', 'pkg-dev', 'PKG', 'lib.pkg', 'pkg+', 'pk', 'g++', 'p:k:g']
+
+
+def p_names(x):
+    """a relationship answers for a candidate only when the candidate name is the name it carries, character for character"""
+    rn, cn = x
+    want = True if rn == cn else None
+    got = [deps.Relationship(name=rn).matches(cn), deps.Relationship(name=rn).matches(cn, '2'),
+           deps.VersionedRelationship(name=rn, operator='>=', version='1').matches(cn, '2'),
+           deps.VersionedRelationship(name=rn, operator='>=', version='1').matches(cn, Version.from_string('2'))]
+    if any(g is not want for g in got):
+        return 'relationship on %r asked about %r answers %r, expected %r' % (rn, cn, got, want)
+    f = deps.VersionedRelationship(name=rn, operator='<<', version='1').matches(cn, '2')
+    if f is not (False if rn == cn else None):
+        return 'relationship %r (<< 1) asked about %r version 2 answers %r' % (rn, cn, f)
+    return None
+
+
 def rand_tree(rng, depth=2):
     def leaf():
         k = rng.random()
-        n = rng.choice([NAME, NAME, 'other', 'x'])
+        n = rng.choice([NAME, NAME, 'other', 'x', 'pkg:any', 'pkg3', 'pk'])
         if k < .4:
             return ['R', n, []]
         return ['V', n, rng.choice(OPS + BAD_OPS[:1]), rng.choice(_ver.BOUNDARY), [] if rng.random() < .93 else ['i386']]
@@ -118,6 +136,7 @@ def run(ctx):
     ctx.exhaustive.append('all %d result vectors over {True(simple), True(versioned), False, None} up to width %d through '
                           'Or / And / match_relationships' % (len(vectors), W))
     fails = ctx.prop('prop:combinators', vectors, p_vector)
+    fails += ctx.prop('prop:names', [(a, b) for a in REL_NAMES for b in REL_NAMES], p_names)
 
     # the operator table around each required version
     reqs = list(_ver.BOUNDARY) + ['1.0A', '1.0a', '2.1RC1', '2.1rc1', '1.0Z', '1.0z-1', '1aB', '1Ab'] + [v for v in (V.version(rng) for _ in range(ctx.n(40, 400))) if _ver.valid(v)]
@@ -139,7 +158,7 @@ def run(ctx):
     bad = ctx.compare('corr:versioned', reqs_m, impl)
     trees = [rand_tree(rng) for _ in range(ctx.n(6000, 80000))]
     cands = [None, '', '1.0', '1.00', '2', '0:1-0', [0, '1.0', '0'], [1, '1', '0'], 'not a version']
-    bad += ctx.compare('corr:trees', [('rel_matches', [t, rng.choice([NAME, 'other']), rng.choice(cands)]) for t in trees], impl)
+    bad += ctx.compare('corr:trees', [('rel_matches', [t, rng.choice([NAME, NAME, 'other', 'pkg:any', 'pk']), rng.choice(cands)]) for t in trees], impl)
     bad += ctx.compare('corr:match_relationships',
                        [('match_relationships', [NAME, rng.choice(cands[2:7]), [rand_tree(rng) for _ in range(rng.randint(0, 4))]])
                         for _ in range(ctx.n(3000, 40000))], impl)
